@@ -5,6 +5,7 @@ theorems about it) but not the model driver that every check needs.  Core Lean o
 -/
 import KlogV.Model.Canon
 import KlogV.Gen.GoSrc
+import KlogV.Gen.GoTxt
 open KlogV
 
 /-! ### `gs.*`: the same questions answered by the TRANSLATED Go source (KlogV/Gen/GoSrc.lean); the harness compares the
@@ -20,6 +21,24 @@ def gsStr (x : Go.G Go.Str) : String := match x with | .ok s => String.ofList s 
 def gsInt (x : Go.G Int) : String := match x with | .ok s => toString s | .error (.err _) => "<err>" | .error .panic => "<panic>"
 def gsTimeOfArgs (h m s f : String) : GoSrc.time := ⟨h.toInt!, m.toInt!, s.toInt!, ⟨f == "1"⟩⟩
 def gsGroups (toks : List String) : List Go.Str := toks.map (fun t => if t == "-" then [] else decodeGo (bytesOfHex t))
+
+/-- the loop of the serial parser over the translated `ParseBlock`: blocks until nothing is consumed -/
+def gsBlocksLoop : Nat → Go.BStr → Int → List (List GoTxt.Line) → Option (List (List GoTxt.Line))
+  | 0, _, _, acc => some acc.reverse
+  | fuel + 1, text, lines, acc =>
+    match GoTxt.ParseBlock text lines with
+    | .ok (some b, n) =>
+      if n == 0 then some acc.reverse else gsBlocksLoop fuel (text.drop n.toNat) (lines + b.lines.length) (b.lines :: acc)
+    | .ok (none, _) => some acc.reverse
+    | .error _ => none
+
+def gsLineToModel (l : GoTxt.Line) : Line :=
+  ⟨l.Text, if l.LineEnding == [13, 10] then .crlf else if l.LineEnding == [10] then .lf else .none⟩
+
+def gsSigLine (b : List GoTxt.Line) : String :=
+  match (⟨0, b⟩ : GoTxt.block).SignificantLines with
+  | .ok (sig, h, t) => s!"{sig.length}/{h}/{t}"
+  | .error _ => "!"
 
 def handleGs (args : List String) : Option String :=
   match args with
@@ -42,6 +61,11 @@ def handleGs (args : List String) : Option String :=
     let da : GoSrc.duration := ⟨a.toInt!, ⟨false, 0⟩⟩
     let db : GoSrc.duration := ⟨b.toInt!, ⟨false, 0⟩⟩
     some (gRes (fun d => s!"{d.minutes}") (da.Plus db) ++ " " ++ gRes (fun d => s!"{d.minutes}") (da.Minus db) ++ " " ++ gsStr da.ToString ++ " " ++ gsStr da.ToStringWithSign)
+  | ["gs.blocks", h] =>
+    let text := bytesOfHex h
+    some (match gsBlocksLoop (text.length + 1) text 0 [] with
+      | some bs => "ok " ++ canonBlocks (bs.map (·.map gsLineToModel)) ++ " sig=" ++ commaSep (bs.map gsSigLine)
+      | none => "panic")
   | ["gs.translated"] => some (" ".intercalate GoSrc.translated)
   | _ => none
 
